@@ -188,7 +188,7 @@ func genC05Row(rng *rand.Rand) Row {
 	names := []string{"a", "b", "c", "d"}
 	tags := []*Atom{nil, {K: 's', S: "t1"}, {K: 's', S: "t2"}}
 	xs := []*Atom{nil, {K: 'i', I: 0}, {K: 'i', I: 1}}
-	mvals := []string{"", "v1", "v2"}
+	mvals := []string{"", "v1", "v2", "v1, k2: v2"}
 	m := [][2]Atom{}
 	for _, k := range []string{"k1", "k2"} {
 		if rng.Intn(2) == 0 {
@@ -196,9 +196,11 @@ func genC05Row(rng *rand.Rand) Row {
 		}
 	}
 	s := []Atom{}
-	for _, i := range rng.Perm(3) {
-		if rng.Intn(2) == 0 {
-			s = append(s, AS([]string{"e", "f", "g"}[i]))
+	for _, i := range rng.Perm(5) {
+		// (the empty string and an element that reads like two: a set of them is not the empty set, nor the set
+		// of the two)
+		if rng.Intn(5) < 2 {
+			s = append(s, AS([]string{"e", "f", "g", "", "e, f"}[i]))
 		}
 	}
 	return Row{
